@@ -193,6 +193,9 @@ func c13Run(ctx *core.Ctx) {
 		return c
 	}
 	maxN := 3
+	if !ctx.Quick() {
+		maxN = 4
+	}
 	// family A: one column, all cell sequences; plus the same column next to an int id column
 	for _, k := range kinds {
 		alpha := c13Alphabet(k, false)
@@ -204,6 +207,9 @@ func c13Run(ctx *core.Ctx) {
 							for shape := 0; shape < model.NShapes; shape++ {
 								if ctx.Quick() && n == 3 && !withID && shape != (seq[0]+2*seq[1]+3*seq[2])%model.NShapes {
 									continue // quick: one shape per 3-row single-column frame
+								}
+								if n == 4 && (withID || shape != (seq[0]+2*seq[1]+3*seq[2]+5*seq[3])%model.NShapes) {
+									continue // 4-row frames: one shape each, without the id column
 								}
 								if !ctx.Mine() {
 									continue
@@ -279,7 +285,7 @@ func init() {
 		},
 		Bound: map[string]string{
 			"quick":    "family A with n<=3 (3-row single-column frames on one shape each), family B half of the permutation/cell combinations",
-			"thorough": "families A and B complete",
+			"thorough": "family A with n<=4 on every shape, family B complete",
 		},
 		Run:    c13Run,
 		Replay: replayAs(runRTCase),
